@@ -35,7 +35,7 @@ func (c13) Batches(tier string, seed uint64) []core.Batch {
 
 func (c13) Mandatory(tier string) []string {
 	return []string{"members:0", "members:1", "members:2-4", "members:5+", "size:0", "size:odd", "last-odd:padded", "last-odd:unpadded", "name:16-bytes", "name:slash-terminated",
-		"blank-numeric-fields", "zero-padded-numeric-fields", "member-after-odd", "pad-byte:not-newline-then-member", "data:magic-inside", "delivery:bytes.Reader", "delivery:os.File", "delivery:exact-EOF-ReaderAt", "delivery:bytes.Reader:direct-after-read", "delivery:os.File:direct-after-read", "delivery:SectionReader:direct", "name:inner-slash", "size:>=2GiB", "size:>=4GiB", "size:>=9GiB",
+		"blank-numeric-fields", "zero-padded-numeric-fields", "member-after-odd", "pad-byte:not-newline-then-member", "data:magic-inside", "delivery:bytes.Reader", "delivery:os.File", "delivery:exact-EOF-ReaderAt", "delivery:bytes.Reader:direct-after-read", "delivery:os.File:direct-after-read", "delivery:SectionReader:direct", "name:inner-slash", "nested-archive-through-member-reader", "size:>=2GiB", "size:>=4GiB", "size:>=9GiB",
 		"read:immediately", "read:after-advance", "read:continued-after-advance", "read:reseek", "read:ReadAt"}
 }
 
@@ -307,6 +307,43 @@ func (p c13) run(c *core.C, t *core.T, cs c13Case) {
 		c.Cover("members:5+")
 	}
 	c.Cover("delivery:" + cs.Delivery)
+	// an archive as a member of another archive, opened through the member's own reader (which is an io.ReaderAt):
+	// it must yield ITS members and then end - not run on into the outer archive
+	if cs.Seed%4 == 0 && len(cs.Members) > 0 && len(cs.Members) <= 4 {
+		inner := model.WriteAr(cs.Members, cs.PadLast)
+		outer := model.WriteAr([]model.ArMember{{Name: "before.txt", Timestamp: 1, Mode: "100644", Data: []byte("x")},
+			{Name: "nested.a", Timestamp: 1, Mode: "100644", Data: inner},
+			{Name: "after.txt", Timestamp: 1, Mode: "100644", Data: []byte("outer archive, third member")}}, true)
+		if oa, err := deb.LoadAr(bytes.NewReader(outer)); err == nil {
+			oa.Next()
+			if ne, err := oa.Next(); err == nil && ne != nil && ne.Name == "nested.a" {
+				ia, err := deb.LoadAr(ne.Data)
+				if err != nil {
+					c.Failf("LoadAr on the reader of a member that holds a well-formed archive failed: %v", err)
+				} else {
+					var names []string
+					for i := 0; i <= len(cs.Members)+2; i++ {
+						e, err := ia.Next()
+						if err != nil {
+							if err != io.EOF {
+								c.Failf("nested archive: Next #%d failed: %v", i, err)
+							}
+							break
+						}
+						names = append(names, e.Name)
+					}
+					var want []string
+					for _, m := range cs.Members {
+						want = append(want, m.Name)
+					}
+					if strings.Join(names, "|") != strings.Join(want, "|") {
+						c.Failf("an archive opened through the reader of the outer member holding it yields members %q, it has %q", names, want)
+					}
+					c.Cover("nested-archive-through-member-reader")
+				}
+			}
+		}
+	}
 	if len(cs.Members) > 0 {
 		c.Nontrivial()
 	}
